@@ -52,6 +52,7 @@ TIERS = {
 UNITS = ["E1", "E2"]
 USERS = ["u1", "u2", "u3"]
 _USER_RE = re.compile(r"^u[0-9]+$")
+OTHER_TOPICS = ["process_units", "E1/run_log", "E1/control_state", "E2/active_users", "E1/error_log"]   # topic strings the frontend also subscribes (not dead-man-switch topics)
 
 
 # ---- oracle ------------------------------------------------------------------------------------------
@@ -86,6 +87,8 @@ def _run(case):
             elif kind == "fe_subscribe":
                 if not (isinstance(conn, str) and isinstance(user, str) and _USER_RE.match(user)) or "topics" in op:
                     continue
+                if not all(isinstance(op.get(k, []), list) and all(t in OTHER_TOPICS for t in op.get(k, [])) for k in ("before", "after")):
+                    continue
                 if conn in live and live[conn] != user:
                     classes.add("skipped:second-user-on-connection")
                     continue
@@ -97,7 +100,14 @@ def _run(case):
                     continue
             else:
                 continue
-            res = h.apply(op)
+            if kind == "fe_subscribe" and (op.get("before") or op.get("after")):
+                # one subscribe request that lists further topics around the dead-man-switch topic (what the frontend's
+                # pubsub client sends when it re-subscribes all its topics after a websocket reconnect)
+                classes.add("multi-topic-subscribe" + (":other-topic-first" if op.get("before") else ""))
+                res = h.apply({"op": "fe_subscribe", "conn": conn,
+                               "topics": list(op.get("before", [])) + [h.dead_man_topic(user)] + list(op.get("after", []))})
+            else:
+                res = h.apply(op)
             if res["skipped"] is not None:
                 classes.add("skipped:" + res["skipped"])
                 continue
@@ -195,6 +205,15 @@ def histories(draw):
     # bias: one "focus" user gets most of the traffic so that multi-connection stories are common
     focus = draw(st.sampled_from(USERS))
     user_st = st.one_of(st.just(focus), st.sampled_from(USERS))
+    def sub(c, u):
+        o = {"op": "fe_subscribe", "conn": c, "user": u}
+        k = draw(st.integers(0, 5))
+        if k == 0:
+            o["before"] = draw(st.lists(st.sampled_from(OTHER_TOPICS), min_size=1, max_size=2, unique=True))
+        if k in (0, 1) and draw(st.booleans()):
+            o["after"] = draw(st.lists(st.sampled_from(OTHER_TOPICS), min_size=1, max_size=2, unique=True))
+        return o
+
     while len(ops) < n:
         choice = draw(st.sampled_from(["open", "open", "subscribe", "register", "register", "unregister", "close", "close", "close",
                                        "odd"]))
@@ -205,14 +224,14 @@ def histories(draw):
             open_conns.append(c)
             if draw(st.integers(0, 9)) < 8:
                 u = draw(user_st)
-                ops.append({"op": "fe_subscribe", "conn": c, "user": u})
+                ops.append(sub(c, u))
                 bound[c] = u
         elif choice == "subscribe":
             cands = [c for c in open_conns if c not in bound]
             if cands:
                 c = draw(st.sampled_from(cands))
                 u = draw(user_st)
-                ops.append({"op": "fe_subscribe", "conn": c, "user": u})
+                ops.append(sub(c, u))
                 bound[c] = u
             elif bound and draw(st.booleans()):
                 c = draw(st.sampled_from(sorted(bound)))
